@@ -79,15 +79,28 @@ def check_no_key_removal(analysis: Analysis, res: RuleResult, rule: str) -> None
     """
     count = 0
     for mod in core_modules(analysis):
+        # local aliases: `m = x.new_state` makes `m` a name of the map inside that function
+        alias = set()
+        for node in ast.walk(mod.tree):
+            if isinstance(node, (ast.Assign, ast.AnnAssign)) and isinstance(node.value, ast.Attribute) and node.value.attr in STATE_MAPS:
+                for t in (node.targets if isinstance(node, ast.Assign) else [node.target]):
+                    if isinstance(t, ast.Name):
+                        alias.add((func_of_node(analysis, mod, node), t.id))
+
+        def is_map(expr, at) -> bool:
+            if isinstance(expr, ast.Attribute) and expr.attr in STATE_MAPS:
+                return True
+            return isinstance(expr, ast.Name) and bool(alias) and (func_of_node(analysis, mod, at), expr.id) in alias
+
         for node in ast.walk(mod.tree):
             bad = None
             if isinstance(node, ast.Delete):
                 for t in node.targets:
-                    if isinstance(t, ast.Subscript) and isinstance(t.value, ast.Attribute) and t.value.attr in STATE_MAPS:
+                    if isinstance(t, ast.Subscript) and is_map(t.value, node):
                         bad = f"del {unparse(t)}"
             elif isinstance(node, ast.Call) and isinstance(node.func, ast.Attribute) and node.func.attr in ("pop", "popitem", "clear"):
                 recv = node.func.value
-                if isinstance(recv, ast.Attribute) and recv.attr in STATE_MAPS:
+                if is_map(recv, node):
                     bad = unparse(node)
             elif isinstance(node, (ast.Assign, ast.AugAssign, ast.AnnAssign)):
                 targets = node.targets if isinstance(node, ast.Assign) else [node.target]
